@@ -78,6 +78,8 @@ def run(ctx) -> None:
     ctx.rule("R9", "a push / fetch command runs only with a non-empty remote")
     ctx.rule("R11", "option declarations: --fetch/--no-fetch is an on/off flag that is on by default; --commit/--tag-commit/--push are unset unless given (the configuration decides)")
     shapes.cli_option_rule(ctx, "R11", ["--fetch/--no-fetch", "--commit/--no-commit", "--tag-commit/--no-tag-commit", "--push/--no-push"])
+    ctx.rule("R12", "contradictory flags are rejected before anything happens: --date together with --pin-date ends in an exit, not in a log line")
+    shapes.errors_are_fatal(ctx, "R12", "cli._validate_date", 2)
     ctx.rule("R10", "the tag step is the configured one: an (empty) configured tag message reaches the tag command as configured (C12's configured-message rule)")
     ctx.rule("R8", "every command name is in both the git and the hg table (or guarded by name == 'git')")
 
